@@ -19,7 +19,15 @@ from typing import Any
 
 import yaml
 
-from octave_mcp.core.ast_nodes import Assignment, Block, Document, InlineMap, ListValue, LiteralZoneValue
+from octave_mcp.core.ast_nodes import (
+    Assignment,
+    Block,
+    Document,
+    HolographicValue,
+    InlineMap,
+    ListValue,
+    LiteralZoneValue,
+)
 from octave_mcp.core.gbnf_compiler import GBNFCompiler, compile_gbnf_from_meta
 from octave_mcp.core.parser import parse
 from octave_mcp.core.projector import project
@@ -76,6 +84,10 @@ def _convert_value(value: Any) -> Any:
         return [_convert_value(item) for item in value.items]
     elif isinstance(value, InlineMap):
         return {k: _convert_value(v) for k, v in value.pairs.items()}
+    elif isinstance(value, HolographicValue):
+        # A holographic pattern has no native JSON/YAML form: export its canonical text
+        # (json.dumps raised TypeError on the AST object, yaml.dump leaked a Python object tag)
+        return value.raw_pattern
     else:
         return value
 
@@ -128,6 +140,9 @@ def _format_markdown_value(value: Any) -> str:
         # Format inline map as key: value pairs
         pairs = [f"{k}: {_format_markdown_value(v)}" for k, v in value.pairs.items()]
         return ", ".join(pairs)
+    elif isinstance(value, HolographicValue):
+        # I3: the pattern's canonical text, not the dataclass repr
+        return value.raw_pattern
     else:
         # Regular values are stringified directly
         return str(value)
